@@ -127,26 +127,31 @@ func (pvs *ProposalVoteStore) ResultSoFar(proposalID ProposalID, passPercent int
 	// Excludes validators that give up voting in percent calculation
 	totalPower := allPower - eachPower[OPIN_GIVEUP]
 
-	// Calculate actual percentage
+	// The tally decides in exact integer arithmetic (it is part of consensus, and float64 got the boundary wrong:
+	// (1.0 - 0.33) < 0.67 holds in float64, which failed a 67% proposal whose remaining 67% could still pass it).
 	yesPower := eachPower[OPIN_POSITIVE]
 	noPower := eachPower[OPIN_NEGATIVE]
-	yesPercentage := 0.0
-	noPercentage := 0.0
-	passPercentage := float64(passPercent) / 100.0
+	pass := int64(passPercent)
+	passed, failed := false, false
 	if totalPower > 0 {
-		yesPercentage = float64(yesPower) / float64(totalPower)
-		noPercentage = float64(noPower) / float64(totalPower)
+		// passed: yes/total >= pass/100;  failed: (total-no)/total < pass/100 (a pass can no longer be reached)
+		passed = yesPower*100 >= pass*totalPower
+		failed = (totalPower-noPower)*100 < pass*totalPower
+	} else {
+		// nobody left to vote: both shares count as 0
+		passed = 0 >= pass
+		failed = 100 < pass
 	}
 
 	// Proposal passed if received enough votes of YES
-	if yesPercentage >= passPercentage {
-		logger.Detailf("%v, passed, YES percentage= %v", info, yesPercentage)
+	if passed {
+		logger.Detailf("%v, passed, YES power= %v of %v", info, yesPower, totalPower)
 		stat := NewVoteStatus(VOTE_RESULT_PASSED, yesPower, noPower, allPower)
 		return stat, nil
 	}
 	// Proposal failed if received enough votes of NO
-	if (1.0 - noPercentage) < passPercentage {
-		logger.Detailf("%v, failed, NO percentage= %v", info, noPercentage)
+	if failed {
+		logger.Detailf("%v, failed, NO power= %v of %v", info, noPower, totalPower)
 		stat := NewVoteStatus(VOTE_RESULT_FAILED, yesPower, noPower, allPower)
 		return stat, nil
 	}
